@@ -12,6 +12,7 @@ import (
 	"context"
 	"errors"
 	"fmt"
+	"math/rand"
 	"sync"
 	"time"
 
@@ -169,7 +170,7 @@ func goKinds(n NodeCfg) []string {
 }
 
 // actions: integer tokens <-> flyt.Action
-var actNames = map[int]flyt.Action{0: "", 1: flyt.DefaultAction, 2: "a", 3: "ab", 4: "b", 5: "abc", 6: "A", 99: "exit"}
+var actNames = map[int]flyt.Action{0: "", 1: flyt.DefaultAction, 2: "a", 3: "ab", 4: "b", 5: "abc", 6: "A", 7: " ", 8: "\n\t", 99: "exit"}
 
 func actName(a int) flyt.Action {
 	if s, ok := actNames[a]; ok {
@@ -831,7 +832,9 @@ func assignKinds(c *EngineCfg) {
 			continue
 		}
 		ks := goKinds(c.Nodes[i])
-		c.Nodes[i].Gk = ks[(c.Variant+i)%len(ks)]
+		// (not a fixed stride: neighbouring nodes must be able to get the same unusual kind, e.g. two zero-size
+		// nodes, which share one address, connected in one flow)
+		c.Nodes[i].Gk = ks[rand.New(rand.NewSource(int64(c.Variant)*7919+int64(i)*104729)).Intn(len(ks))]
 		if c.Nodes[i].Gk == "zerosize" && i >= 8 {
 			c.Nodes[i].Gk = "plain" // only eight distinct zero-size types exist
 		}
